@@ -611,6 +611,76 @@ func (c14Engine) Exec(t *testing.T, cc any) *simrt.Result {
 				return
 			}
 		}
+		// ---- 7. the handler across a restart: the database of section 6 (batch
+		// stored through a handler that was shut down) is reopened under a NEW
+		// handler; after one more (older) event every probe asked through the
+		// handler answers exactly as the database asked directly
+		if dr := open(ds.dir); dr != nil {
+			rctx, rcancel := context.WithCancel(bg)
+			hr, err := mocsqlite.NewSQLiteHandler(rctx, dr.db, &mocsqlite.SQLiteHandlerOption{EventBulkInsertNum: 1, EventBulkInsertDur: 0, MaxLimit: mocsqlite.NoLimit})
+			if err != nil {
+				sim.Res.Harness = "NewSQLiteHandler: " + err.Error()
+				rcancel()
+				return
+			}
+			st.Fault("handler-restart")
+			cr := sim.NewClient(bg, "h2", nil)
+			cr.Serve(hr)
+			// the event with the smallest created_at of the case, once more
+			oldest := evs[0]
+			for _, e := range evs {
+				if e.CreatedAt < oldest.CreatedAt {
+					oldest = e
+				}
+			}
+			cr.Do(simrt.Op{Kind: "send", Msg: &simrt.Msg{T: "EVENT", EvObj: oldest}})
+			sim.Drive()
+			sim.Advance(100 * time.Millisecond)
+			rprobes := append([]c14Probe{}, probes...)
+			seenTs := map[int64]bool{}
+			for _, e := range evs {
+				if !seenTs[e.CreatedAt] {
+					seenTs[e.CreatedAt] = true
+					ts := e.CreatedAt
+					rprobes = append(rprobes, c14Probe{fmt.Sprintf("since-%d", ts), []*mocrelay.ReqFilter{{Since: &ts}}, false})
+				}
+			}
+			sort.Slice(rprobes, func(i, j int) bool { return rprobes[i].name < rprobes[j].name })
+			for pi, pr := range rprobes {
+				if pr.limited {
+					continue
+				}
+				direct, derr := dr.query(pr.fs)
+				if derr != nil {
+					fail("query-error", nil, "after restart: %v", derr)
+					break
+				}
+				n0 := len(cr.Got)
+				var fss []simrt.FilterSpec
+				for _, f := range pr.fs {
+					fss = append(fss, simrt.FilterSpec{IDs: f.IDs, Authors: f.Authors, Kinds: f.Kinds, Tags: f.Tags, Since: f.Since, Until: f.Until, Limit: f.Limit})
+				}
+				cr.Do(simrt.Op{Kind: "send", Msg: &simrt.Msg{T: "REQ", Sub: fmt.Sprintf("p%d", pi), Filters: fss}})
+				sim.Drive()
+				var via []*mocrelay.Event
+				for _, g := range cr.Got[n0:] {
+					if em, is := g.Msg.(*mocrelay.ServerEventMsg); is {
+						via = append(via, em.Event)
+					}
+				}
+				if a, b := answersKey(direct), answersKey(via); a != b {
+					fail("restart-changes-semantics", map[string]string{"how": "handler"}, "after shutdown, reopen and a new handler, probe %q asked through the handler answers %s, the database asked directly %s", pr.name, truncate(b, 300), truncate(a, 300))
+					break
+				}
+			}
+			cr.Cancel()
+			rcancel()
+			sim.Drive()
+			sim.Advance(4 * time.Second)
+			dr.db.Close()
+		} else {
+			return
+		}
 		h64 := fnv.New64a()
 		fmt.Fprintf(h64, "%d|%s|%d", N, c.Journal, len(c.Pre))
 		st.State(h64.Sum64())
